@@ -261,7 +261,7 @@ def scramble(rng, base, keep_right=False, want_linked=None, reorient_prob=0.9):
 def gen_numbering(rng, tier):
     """Arbitrary-order surface and volume models: numbering, cps, cells, connections."""
     specs = []
-    n = 110 if tier == 'quick' else 1500
+    n = 110 if tier == 'quick' else 900
     i = 0
     while len(specs) < n:
         i += 1
@@ -302,7 +302,7 @@ NAMES = ['inlet', 'outlet', 'wall', 'top', 'Wall2', 'axis']
 def gen_faces(rng, tier):
     """Trilinear right-handed volume models: everything, including faces() and OpenFOAM.write."""
     specs = []
-    n = 110 if tier == 'quick' else 1200
+    n = 110 if tier == 'quick' else 700
     tries = 0
     while len(specs) < n:
         tries += 1
@@ -347,7 +347,7 @@ def gen_two_volumes(rng, tier):
     """Two volumes sharing one face; the neighbour in every one of its 48 parametrisations, added before
     or after the first (both orders): every relative orientation of an interface, systematically."""
     specs = []
-    for rep in range(1 if tier == 'quick' else 4):
+    for rep in range(1 if tier == 'quick' else 3):
         base = lattice_complex(rng, 3, 3, cx.grid_cells(rng.choice([(2, 1, 1), (1, 2, 1), (1, 1, 2)])), [2, 2, 2] if rep == 0 else [rng.choice([2, 3]) for _ in range(3)],
                                [2, 2, 2] if rep % 2 == 0 else [rng.choice([2, 3]) for _ in range(3)], rational=False, jitter=True, family='two-volumes-48')
         if rep % 2 == 1:
